@@ -372,6 +372,23 @@ package spdxexp
 //@ pred denP(R [][]*node, n int) = denc(innerHeap(R), elems(R), n, fieldHeap("node", "tree"))
 //@ pred den(R [][]*node) = denP(R, len(R))
 
+// Leaf membership (C06, C10): leafOf(t, x): x is a leaf of the tree t; inAlt(s, x): some node of the alternative s
+// has the value x; inNest(R, x) / inNestP(R, n, x): some node of (the first n alternatives of) R has the value x.
+// x is a ghost parameter of the expansion functions: every contract is proved for an arbitrary x.
+//@ def[2] leafOf(t Tree, x Tree) bool = ite(isTNode(t), leafOf(tnL(t), x) || leafOf(tnR(t), x), t == x)
+//@ fn inac(c seq[*node], n int, T seq[Tree], x Tree) bool
+//@ fn inaw(c seq[*node], n int, T seq[Tree], x Tree) int
+//@ axiom forall c seq[*node], n int, T seq[Tree], x Tree {inac(c, n, T, x)} :: inac(c, n, T, x) ==> 0 <= inaw(c, n, T, x) && inaw(c, n, T, x) < n && T[c[inaw(c, n, T, x)]] == x
+//@ axiom forall c seq[*node], n int, T seq[Tree], x Tree, k int {inac(c, n, T, x), c[k]} :: 0 <= k && k < n && T[c[k]] == x ==> inac(c, n, T, x)
+//@ pred inAlt(s []*node, x Tree) = inac(elems(s), len(s), fieldHeap("node", "tree"), x)
+//@ pred inah(MP seq[seq[*node]], h []*node, T seq[Tree], x Tree) = inac(MP[arr(h)], len(h), T, x)
+//@ fn innc(MP seq[seq[*node]], C seq[[]*node], n int, T seq[Tree], x Tree) bool
+//@ fn innw(MP seq[seq[*node]], C seq[[]*node], n int, T seq[Tree], x Tree) int
+//@ axiom forall MP seq[seq[*node]], C seq[[]*node], n int, T seq[Tree], x Tree {innc(MP, C, n, T, x)} :: innc(MP, C, n, T, x) ==> 0 <= innw(MP, C, n, T, x) && innw(MP, C, n, T, x) < n && inah(MP, C[innw(MP, C, n, T, x)], T, x)
+//@ axiom forall MP seq[seq[*node]], C seq[[]*node], n int, T seq[Tree], x Tree, i int {innc(MP, C, n, T, x), C[i]} :: 0 <= i && i < n && inah(MP, C[i], T, x) ==> innc(MP, C, n, T, x)
+//@ pred inNestP(R [][]*node, n int, x Tree) = innc(innerHeap(R), elems(R), n, fieldHeap("node", "tree"), x)
+//@ pred inNest(R [][]*node, x Tree) = inNestP(R, len(R), x)
+
 // ---------------------------------------------------------------------------
 // satisfies.go, extracts.go, helpers.go
 
@@ -391,6 +408,8 @@ package spdxexp
 //@ pred Ptree(s string) = tExpr(TokSeq(s), TokLen(s), 0)
 
 //@ func Satisfies
+//@   ghostparam x Tree
+//@   ghostparam s string
 //@   modifies nothing
 //@   assume call (*node).expand#0: forall t Tree {m(t)} :: m(t) <==> covered(t, allowedNodes)
 //@   ensures[C01,C10] !isErr(result1) ==> (result0 <==> sem(Ptree(testExpression)))
@@ -401,11 +420,16 @@ package spdxexp
 //@ end
 
 //@ func ExtractLicenses
+//@   ghostparam x Tree
+//@   ghostlet s = reconT(x)
 //@   modifies nothing
 //@   ensures[C04] isErr(result1) <==> !V(expression)
 //@   ensures[C04] isErr(result1) ==> result0 == nil
+//@   ensures[C06] !isErr(result1) ==> noDups(result0)
+//@   ensures[C06,C10] !isErr(result1) && leafOf(Ptree(expression), x) ==> occurs(result0, reconT(x))
 //@   loop 0:
 //@     invariant[C03,C13] fresh(licenses)
+//@     invariant[C06] len(licenses) == $i && $i <= len(allLicenses) && forall k :: 0 <= k && k < $i ==> licenses[k] == reconT(allLicenses[k].tree)
 //@ end
 
 //@ func stringsToNodes
@@ -413,7 +437,9 @@ package spdxexp
 //@   ensures[C03] !isErr(result1) ==> fresh(result0) && len(result0) == len(licenseStrings) && allLeaves(result0)
 //@   ensures[C04] isErr(result1) <==> (exists k :: 0 <= k && k < len(licenseStrings) && (!V(licenseStrings[k]) || K(licenseStrings[k])))
 //@   ensures[C04] isErr(result1) ==> result0 == nil
+//@   ensures[C07,C01] !isErr(result1) ==> forall k :: 0 <= k && k < len(licenseStrings) ==> result0[k].tree == Ptree(licenseStrings[k])
 //@   loop 0:
+//@     invariant[C07,C01] forall k :: 0 <= k && k < $i ==> nodes[k].tree == Ptree(licenseStrings[k])
 //@     invariant[C04] $i <= len(licenseStrings) && forall k :: 0 <= k && k < $i ==> V(licenseStrings[k]) && !K(licenseStrings[k])
 //@     invariant[C03] fresh(nodes) && len(nodes) == len(licenseStrings)
 //@     invariant[C03] forall k :: 0 <= k && k < $i ==> leaf(nodes[k])
@@ -438,22 +464,28 @@ package spdxexp
 //@ end
 
 //@ func (*node).expand
+//@   ghostparam x Tree
 //@   requires n != nil
 //@   modifies nothing
 //@   ensures[C03] okNest(result) && len(result) >= 1
 //@   ensures[C01,C10] den(result) <==> sem(n.tree)
+//@   ensures[C06,C10] inNest(result, x) <==> leafOf(n.tree, x)
 //@ end
 
 //@ func (*node).expandOr
+//@   ghostparam x Tree
 //@   requires n != nil && n.role == 0 && n.exp.conjunction == "or"
 //@   modifies nothing
+//@   ensures[C06,C10] inNest(result, x) <==> leafOf(n.tree, x)
 //@   ensures[C03] okNest(result) && len(result) >= 1 && freshNest(result) && distinctNest(result)
 //@   ensures[C01,C10] den(result) <==> sem(n.tree)
 //@ end
 
 //@ func expandOrTerm
+//@   ghostparam x Tree
 //@   requires term != nil && okNest(result) && distinctNest(result)
 //@   modifies arr(result)
+//@   ensures[C06,C10] inNest(result0, x) <==> (old(inNest(result, x)) || leafOf(term.tree, x))
 //@   ensures[C03] okNest(result0) && len(result0) >= len(result) + 1 && distinctNest(result0)
 //@   ensures[C03] fresh(result0) || arr(result0) == arr(result)
 //@   ensures[C03] forall i :: 0 <= i && i < len(result0) ==> fresh(result0[i]) || (i < len(result) && result0[i] == old(result[i]))
@@ -461,22 +493,28 @@ package spdxexp
 //@ end
 
 //@ func (*node).expandAnd
+//@   ghostparam x Tree
 //@   requires n != nil && n.role == 0 && n.exp.conjunction == "and"
 //@   modifies nothing
+//@   ensures[C06,C10] inNest(result, x) <==> leafOf(n.tree, x)
 //@   ensures[C03] okNest(result) && len(result) >= 1 && freshNest(result) && distinctNest(result)
 //@   ensures[C01,C10] den(result) <==> sem(n.tree)
 //@ end
 
 //@ func expandAndTerm
+//@   ghostparam x Tree
 //@   requires term != nil
 //@   modifies nothing
+//@   ensures[C06,C10] inNest(result, x) <==> leafOf(term.tree, x)
 //@   ensures[C03] okNest(result) && len(result) >= 1 && freshNest(result) && distinctNest(result)
 //@   ensures[C01,C10] den(result) <==> sem(term.tree)
 //@ end
 
 //@ func appendTerms
+//@   ghostparam x Tree
 //@   requires okNest(left) && okNest(right)
 //@   modifies nothing
+//@   ensures[C06,C10] inNest(result, x) <==> (len(left) >= 1 && len(right) >= 1 && (old(inNest(left, x)) || old(inNest(right, x))))
 //@   ensures[C03] okNest(result) && freshNest(result) && distinctNest(result)
 //@   ensures[C03] len(left) >= 1 && len(right) >= 1 ==> len(result) >= 1
 //@   ensures[C01,C10] den(result) <==> (old(den(left)) && old(den(right)))
@@ -484,10 +522,16 @@ package spdxexp
 //@     invariant[C03] okNest(result) && freshNest(result) && distinctNest(result)
 //@     invariant[C03] len(left) >= 1 && $i >= 1 ==> len(result) >= 1
 //@     invariant[C01,C10] $i <= len(right) && (den(result) <==> (old(den(left)) && old(denP(right, $i))))
+//@     invariant[C06,C10] inNest(result, x) <==> ($i >= 1 && len(left) >= 1 && (old(inNest(left, x)) || old(inNestP(right, $i, x))))
 //@   loop 1:
 //@     invariant[C03] okNest(result) && freshNest(result) && distinctNest(result)
 //@     invariant[C03] len(left) >= 1 && ($i0 >= 1 || $i >= 1) ==> len(result) >= 1
 //@     invariant[C01,C10] $i <= len(left) && $i0 < len(right) && r == old(right[$i0]) && (den(result) <==> ((old(den(left)) && old(denP(right, $i0))) || (old(denP(left, $i)) && old(all(right[$i0])))))
+//@     invariant[C06,C10] inNest(result, x) <==> (($i0 >= 1 && len(left) >= 1 && (old(inNest(left, x)) || old(inNestP(right, $i0, x)))) || ($i >= 1 && (old(inNestP(left, $i, x)) || old(inAlt(right[$i0], x)))))
+//@   assert[C06,C10] after append#0: inAlt(ret, x) <==> old(inAlt(left[$i1], x))
+//@   assert[C06,C10] after append#1: inAlt(ret, x) <==> (old(inAlt(left[$i1], x)) || old(inAlt(right[$i0], x)))
+//@   assert[C06,C10] after append#2: inNest(ret, x) <==> (inNest(result, x) || inAlt(tmp, x))
+//@   assert[C06,C10] after append#2: stepLeftIn: old(inNestP(left, $i1 + 1, x)) <==> (old(inNestP(left, $i1, x)) || old(inAlt(left[$i1], x)))
 //@   assert[C01,C10] after append#0: len(ret) == len(l) && (all(ret) <==> old(all(left[$i1])))
 //@   assert[C01,C10] after append#1: all(ret) <==> (old(all(left[$i1])) && old(all(right[$i0])))
 //@   assert[C01,C10] after append#2: den(ret) <==> (den(result) || all(tmp))
@@ -495,7 +539,9 @@ package spdxexp
 //@ end
 
 //@ func mergeTerms
+//@   ghostparam x Tree
 //@   requires okNest(left) && okNest(right)
+//@   ensures[C06,C10] inNest(result, x) <==> (old(inNest(left, x)) || old(inNest(right, x)))
 //@   requires[C01,C10] len(left) == 1 && len(right) == 1
 //@   modifies arr(left), arrs(left)
 //@   ensures[C01,C10] den(result) <==> (old(den(left)) && old(den(right)))
@@ -504,31 +550,52 @@ package spdxexp
 //@   loop 0:
 //@     invariant[C03] okNest(left) && okNest(right)
 //@     invariant[C03] forall i :: 0 <= i && i < len(left) ==> fresh(left[i]) || arr(left[i]) == arr(old(left[i]))
+//@     invariant[C06,C10] $i == 0 ==> (inAlt(left[0], x) <==> old(inAlt(left[0], x))) && (inAlt(right[0], x) <==> old(inAlt(right[0], x)))
+//@     invariant[C06,C10] $i >= 1 ==> (inAlt(left[0], x) <==> (old(inAlt(left[0], x)) || old(inAlt(right[0], x))))
 //@     invariant[C01,C10] $i == 0 ==> (all(left[0]) <==> old(all(left[0]))) && (all(right[0]) <==> old(all(right[0])))
 //@     invariant[C01,C10] $i >= 1 ==> (all(left[0]) <==> (old(all(left[0])) && old(all(right[0]))))
 //@   loop 1:
+//@     invariant[C06,C10] $i == 0 ==> (inAlt(left[0], x) <==> old(inAlt(left[0], x))) && (inAlt(r, x) <==> old(inAlt(right[0], x)))
+//@     invariant[C06,C10] $i >= 1 ==> (inAlt(left[0], x) <==> (old(inAlt(left[0], x)) || old(inAlt(right[0], x))))
 //@     invariant[C01,C10] $i0 == 0 && ($i == 0 ==> (all(left[0]) <==> old(all(left[0]))) && (all(r) <==> old(all(right[0]))))
 //@     invariant[C01,C10] $i >= 1 ==> (all(left[0]) <==> (old(all(left[0])) && old(all(right[0]))))
 //@     invariant[C03] okNest(left) && okNest(right) && okAlt(r)
 //@     invariant[C03] forall i :: 0 <= i && i < len(left) ==> fresh(left[i]) || arr(left[i]) == arr(old(left[i]))
 //@ end
 
+// occursR(nodes, lo, hi, s): some node of nodes[lo:hi) has the canonical string s (opaque, with Skolem witness)
+//@ fn orc(c seq[*node], lo int, hi int, T seq[Tree], s string) bool
+//@ fn orw(c seq[*node], lo int, hi int, T seq[Tree], s string) int
+//@ axiom forall c seq[*node], lo int, hi int, T seq[Tree], s string {orc(c, lo, hi, T, s)} :: orc(c, lo, hi, T, s) ==> lo <= orw(c, lo, hi, T, s) && orw(c, lo, hi, T, s) < hi && reconT(T[c[orw(c, lo, hi, T, s)]]) == s
+//@ axiom forall c seq[*node], lo int, hi int, T seq[Tree], s string, k int {orc(c, lo, hi, T, s), c[k]} :: lo <= k && k < hi && reconT(T[c[k]]) == s ==> orc(c, lo, hi, T, s)
+//@ pred occursR(l []*node, lo int, hi int, s string) = orc(elems(l), lo, hi, fieldHeap("node", "tree"), s)
+
+// The in-place sort and compaction keep, in the full-length slice, exactly the canonical strings that were there
+// (C07: the allowed list behaves as a set; Satisfies keeps using the full-length slice).  s is a ghost parameter.
 //@ func sortAndDedup
+//@   ghostparam s string
 //@   requires allLeaves(nodes)
 //@   modifies arr(nodes)
 //@   ensures[C03] allLeaves(nodes)
+//@   ensures[C07,C01] occursR(nodes, 0, len(nodes), s) <==> old(occursR(nodes, 0, len(nodes), s))
 //@   loop 0:
 //@     invariant[C03] 1 <= prev && prev <= curr && curr <= len(nodes) && allLeaves(nodes)
+//@     invariant[C07,C01] (occursR(nodes, 0, prev, s) || occursR(nodes, curr, len(nodes), s)) <==> old(occursR(nodes, 0, len(nodes), s))
+//@     invariant[C07,C01] reconT(nodes[prev - 1].tree) == reconT(nodes[curr - 1].tree)
+//@     invariant[C07,C01] occursR(nodes, 0, len(nodes), s) ==> old(occursR(nodes, 0, len(nodes), s))
 //@ end
 
 //@ func deepSort
+//@   ghostparam x Tree
 //@   requires okNest(nodes2d) && distinctNest(nodes2d)
+//@   ensures[C06,C10] inNest(result, x) <==> old(inNest(nodes2d, x))
 //@   modifies arr(nodes2d), arrs(nodes2d)
 //@   ensures[C03] result == nodes2d && okNest(result)
 //@   ensures[C01,C10] den(result) <==> old(den(nodes2d))
 //@   loop 0:
 //@     invariant[C03] okNest(nodes2d) && distinctNest(nodes2d) && elems(nodes2d) == old(elems(nodes2d))
 //@     invariant[C01,C10] forall i :: 0 <= i && i < len(nodes2d) ==> (all(nodes2d[i]) <==> old(all(nodes2d[i])))
+//@     invariant[C06,C10] forall i :: 0 <= i && i < len(nodes2d) ==> (inAlt(nodes2d[i], x) <==> old(inAlt(nodes2d[i], x)))
 //@ end
 
 //@ func deepSort$1
@@ -537,15 +604,35 @@ package spdxexp
 //@ end
 
 //@ func flatten
+//@   ghostparam x Tree
 //@   requires okNest(lists)
 //@   modifies nothing
 //@   ensures[C03] allLeaves(result)
+//@   ensures[C06] inAlt(result, x) <==> old(inNest(lists, x))
 //@   loop 0:
 //@     invariant[C03,C13] (res == nil || fresh(res)) && allLeaves(res)
+//@     invariant[C06] $i <= len(lists) && (inAlt(res, x) <==> old(inNestP(lists, $i, x)))
+//@   assert[C06] after append#0: inAlt(ret, x) <==> (inAlt(res, x) || old(inAlt(lists[$i0], x)))
+//@   assert[C06] after append#0: stepIn: old(inNestP(lists, $i0 + 1, x)) <==> (old(inNestP(lists, $i0, x)) || old(inAlt(lists[$i0], x)))
 //@ end
 
+// occurs(c, n, s): the string s is among the first n elements of c (opaque, with Skolem witness)
+//@ fn occc(c seq[string], n int, s string) bool
+//@ fn occw(c seq[string], n int, s string) int
+//@ axiom forall c seq[string], n int, s string {occc(c, n, s)} :: occc(c, n, s) ==> 0 <= occw(c, n, s) && occw(c, n, s) < n && c[occw(c, n, s)] == s
+//@ axiom forall c seq[string], n int, s string, k int {occc(c, n, s), c[k]} :: 0 <= k && k < n && c[k] == s ==> occc(c, n, s)
+//@ pred occurs(l []string, s string) = occc(elems(l), len(l), s)
+//@ pred occursP(l []string, n int, s string) = occc(elems(l), n, s)
+//@ pred noDups(l []string) = forall i, j :: 0 <= i && i < j && j < len(l) ==> l[i] != l[j]
+
 //@ func removeDuplicateStrings
+//@   ghostparam s string
 //@   modifies nothing
+//@   ensures[C06] noDups(result)
+//@   ensures[C06] occurs(result, s) <==> old(occurs(sliceList, s))
 //@   loop 0:
-//@     invariant[C03,C13] fresh(list)
+//@     invariant[C03,C13] fresh(list) && allKeys != nil && fresh(allKeys)
+//@     invariant[C06] $i <= len(sliceList) && noDups(list)
+//@     invariant[C06] forall t string {has(allKeys, t)} :: has(allKeys, t) <==> occurs(list, t)
+//@     invariant[C06] occurs(list, s) <==> old(occursP(sliceList, $i, s))
 //@ end
